@@ -89,6 +89,8 @@ pub fn add_counters(rep: &mut Rep, w: &World) {
     rep.add("inbound_publishes_with_every_forwardable_property", c.rich_inbound as i64);
     rep.add("inbound_publishes_with_topic_alias_in_place_of_the_topic", c.alias_only_inbound as i64);
     rep.add("publishes_with_multi_byte_characters_in_the_topic", c.utf8_topic_pubs as i64);
+    rep.add("server_disconnects_ending_in_a_user_property_with_empty_value", c.disconnects_ending_in_empty_value as i64);
+    rep.add("requests_over_the_maximum_packet_size", c.oversize_refusals_expected as i64);
     rep.add("inbound_pubrel_with_reason_0x92", c.pubrel_not_found as i64);
     rep.add("acks_with_property_section_over_110_bytes", c.long_ack_props as i64);
     rep.add("inbound_acks_matched", c.inbound_acks_matched as i64);
@@ -166,6 +168,8 @@ pub fn walk_world(rep: &mut Rep, name: &str, walks: u64, steps: usize, mk: &dyn 
         w.multi_filter = k % 3 != 0 && w.max_packet.is_none();
         // ... and every eighth walk has publishes of 70 000 bytes and more among its requests
         w.huge_pubs = k % 8 == 3 && w.max_packet.is_none();
+        // under a small Maximum Packet Size every third subscribe / unsubscribe is too large for it
+        w.big_subs = w.max_packet.map(|m| m < 300).unwrap_or(false);
         // every third walk starts with the identifier counters at a boundary (hook H2); nothing has been allocated yet
         if k % 3 == 1 && w.m.is_empty() {
             let pids = [200u16, 250, 255, 256, 300, 0x7ff0, 0x7fff, 0xfff0, 65530, 65535];
